@@ -323,6 +323,26 @@ def cases():
                         els[k] = newlp
                         add('two duplicate data names within a loop header', '%s %s' % (hn, order), doc, 41, newlp, content(copy.deepcopy(host)),
                             window=(render(doc)[1][id(newlp)][0], render(doc)[1][id(newlp)][0] + len(names) + 2))
+                # two defects that meet: a duplicate name in the header (its column is dropped) and a short last packet.  The values
+                # that are missing are unknown in the columns that remain, wherever the dropped column stands and however short the packet
+                ncols = len(lp[1])
+                for pos in sorted(set([1, ncols])):
+                    for m in range(1, ncols + 1):
+                        doc = copy.deepcopy(host)
+                        els = doc[0][2]
+                        lp3 = [e for e in els if e[0] == 'loop'][0]
+                        k = els.index(lp3)
+                        names = lp3[1][:pos] + [lp3[1][0].upper()] + lp3[1][pos:]
+                        rows = [row[:pos] + [('dropped', S('dropped'))] + row[pos:] for row in lp3[2]]
+                        short = [('w%d' % j, S('w%d' % j)) for j in range(m)]
+                        newlp = ('loop', names, rows + [short])
+                        els[k] = newlp
+                        exp_doc = copy.deepcopy(host)
+                        elp = [e for e in exp_doc[0][2] if e[0] == 'loop'][0]
+                        full = short + [('?', UNKV)] * (ncols + 1 - m)
+                        elp[2].append(full[:pos] + full[pos + 1:])
+                        add('partial packet in a loop with a duplicate name', '%s dup@%d short=%d' % (hn, pos, m), doc, 41, newlp, content(exp_doc),
+                            window=(render(doc)[1][id(newlp)][0], render(doc)[1][id(newlp)][0] + len(names) + 2))
                 # a further loop ALL of whose header names are duplicates (one column; two columns): every column is dropped, so
                 # nothing of that loop is stored, and what follows it is unaffected
                 for ncol in (1, 2):
